@@ -41,6 +41,7 @@ class LoopContract:
         self.invariants = []
         self.decreases = None
         self.start, self.end = [], []
+        self.before, self.after = [], []
         self.used = False
 
 
@@ -50,6 +51,7 @@ class ClosureContract:
         self.params = None
         self.ret = None
         self.requires, self.ensures = [], []
+        self.entry = []
         self.used = False
 
 
@@ -153,6 +155,10 @@ def parse_contracts(paths):
                     sink = cur_loop.start
                 elif d == "l.end":
                     sink = cur_loop.end
+                elif d == "l.before":
+                    sink = cur_loop.before
+                elif d == "l.after":
+                    sink = cur_loop.after
                 elif d == "closure":
                     cur_clos = cur_fn.closures[arg] = ClosureContract(arg)
                     sink = None
@@ -160,6 +166,8 @@ def parse_contracts(paths):
                     cur_clos.params = arg
                 elif d == "c.ret":
                     cur_clos.ret = arg
+                elif d == "c.entry":
+                    sink = cur_clos.entry
                 elif d in ("c.requires", "c.ensures"):
                     label, core, sup = _parse_label(arg)
                     c = Clause(d[2:], label, core, sup, [])
@@ -381,6 +389,12 @@ def assemble(unit_cfg, src="/repo/src"):
                 elif what == "END":
                     if lc is not None and lc.end:
                         out.add("\n" + "\n".join(lc.end) + "\n")
+                elif what == "BEFORE":
+                    if lc is not None and lc.before:
+                        out.add("\n" + "\n".join(lc.before) + "\n")
+                elif what == "AFTER":
+                    if lc is not None and lc.after:
+                        out.add("\n" + "\n".join(lc.after) + "\n")
             elif sub.startswith("C"):
                 ci = fi["closures"][int(sub[1:])]
                 cc = fc.closures.get(ci["key"]) if fc is not None else None
@@ -419,6 +433,8 @@ def assemble(unit_cfg, src="/repo/src"):
                         out.add("\n")
                         base = out.line
                         out.add("\n".join(lines) + "\n            {")
+                        if cc.entry:
+                            out.add("\n" + "\n".join(cc.entry) + "\n")
                         for (a, b, c) in table:
                             side["clauses"].append({"fn": fi["key"], "kind": "closure-" + c.kind, "closure": ci["key"], "label": c.label, "core": c.core, "sup": c.sup,
                                                     "line_start": base + a, "line_end": base + b, "text": " ".join(l.strip() for l in c.text if l.strip())})
